@@ -126,7 +126,7 @@ def main(ctx):
     agree = {'FastSimulation': 0, 'CompiledSimulation': 0}
     total = {'FastSimulation': 0, 'CompiledSimulation': 0}
     for simcls, n in ((pyrtl.FastSimulation, nfast), (pyrtl.CompiledSimulation, ncomp)):
-        for k in range(n):
+        for k in ctx.loop(n):
             profile = ('limb', 'small', 'limb', 'med')[k % 4]
             rng = ctx.rng
             d = gen.rand_design(rng, profile=profile)
